@@ -556,3 +556,22 @@ func mkCapturedBad(o *cellT, p *cellT) func() {
 	c := o
 	return func() { c = p; c.v = 5 }
 }
+
+// ---- a constructor called by contract ("modifies nothing", fresh result with a fresh field): the caller's
+// continuation must stay reachable (reference facts of old heap versions do not apply to new locations)
+
+type box2 struct{ p *cellT }
+
+func newBox2() *box2 { return &box2{p: &cellT{}} }
+
+func BadAfterFreshCtor() int {
+	b := newBox2()
+	b.p.v = 3
+	return 1
+}
+
+func GoodAfterFreshCtor() int {
+	b := newBox2()
+	b.p.v = 3
+	return b.p.v
+}
